@@ -1,10 +1,23 @@
 (* Algorithm-faithful model of the C support library
-   src/nunavut/lang/c/support/serialization.j2 (function by function).
-   Buffers are lists of bytes; an access outside a buffer is None (= C undefined behaviour).
-   Offsets/lengths are size_t in C: the model uses unbounded N and every theorem carries
-   the no-wrap precondition (offset + length < 2^64) explicitly. *)
-From Verif Require Export Bits.
+   src/nunavut/lang/c/support/serialization.j2 (function by function, rendered header
+   nunavut/support/serialization.h).
+
+   - Buffers are lists of bytes = the ALLOCATION the pointer points into; every byte access
+     goes through rd / wr / memmove / memset0, which return None when the access falls outside
+     the allocation (= C undefined behaviour).  `buf_size_bytes` is a separate argument, as in C.
+   - size_t and uint64_t are 64 bits (LP64): every addition/multiplication of the C code that is
+     performed in size_t is written through w64 (wrap modulo 2^64).  Subtractions that the code
+     guards (a - min(a,b), last_bit - src_off inside `while (last_bit > src_off)`) cannot
+     underflow and are plain.
+   - unsigned int is 32 bits, unsigned long / unsigned long long are 64 bits; conversions to
+     a signed type keep the value modulo 2^w (gcc/clang), cast_s.
+   - `little : bool` selects the rendering with target_endianness = little (memory image of
+     the integer object on a little-endian host); false = any / big (explicit byte arrays). *)
+From Verif Require Export Bits F16.
 Open Scope N_scope.
+
+Definition two64 : N := 18446744073709551616.
+Definition w64 (x : N) : N := x mod two64.
 
 Definition blen (b : bytes) : N := N.of_nat (length b).
 
@@ -19,11 +32,11 @@ Definition choose_min (a b : N) : N := if a <? b then a else b.
 
 (* nunavutSaturateBufferFragmentBitLength *)
 Definition saturate_fragment (buffer_size_bytes fragment_offset_bits fragment_length_bits : N) : N :=
-  let size_bits := buffer_size_bytes * 8 in
+  let size_bits := w64 (buffer_size_bytes * 8) in
   let tail_bits := size_bits - choose_min size_bits fragment_offset_bits in
   choose_min fragment_length_bits tail_bits.
 
-(* memmove(dst + d, src + s, n) for distinct buffers *)
+(* memmove(dst + d, src + s, n) for distinct objects *)
 Definition memmove (dst : bytes) (d : N) (src : bytes) (s n : N) : option bytes :=
   if (s + n <=? blen src) && (d + n <=? blen dst)
   then Some (firstn (N.to_nat d) dst ++ firstn (N.to_nat n) (skipn (N.to_nat s) src) ++ skipn (N.to_nat (d + n)) dst)
@@ -47,7 +60,7 @@ Fixpoint copy_loop (fuel : nat) (dst src : bytes) (src_off dst_off last_bit : N)
             let a := N.land d (N.lxor mask 255) in
             let b := N.land inb mask in
             match wr dst (dst_off / 8) (N.lor a b) with
-            | Some dst' => copy_loop f dst' src (src_off + size) (dst_off + size) last_bit
+            | Some dst' => copy_loop f dst' src (w64 (src_off + size)) (w64 (dst_off + size)) last_bit
             | None => None
             end
         | _, _ => None
@@ -72,65 +85,129 @@ Definition copy_bits (dst : bytes) (dst_offset_bits length_bits : N) (src : byte
           end
         else Some dst1
     end
-  else copy_loop (N.to_nat length_bits) dst src src_offset_bits dst_offset_bits (src_offset_bits + length_bits).
+  else copy_loop (N.to_nat length_bits) dst src src_offset_bits dst_offset_bits (w64 (src_offset_bits + length_bits)).
 
-(* nunavutGetBits(output, buf, buf_size_bytes, off_bits, len_bits): output has (len_bits+7)/8 bytes *)
+(* memset(b + from, 0, n) *)
 Definition memset0 (b : bytes) (from n : N) : option bytes :=
   if from + n <=? blen b
   then Some (firstn (N.to_nat from) b ++ repeat 0 (N.to_nat n) ++ skipn (N.to_nat (from + n)) b)
   else None.
 
-Definition get_bits (output buf : bytes) (off_bits len_bits : N) : option bytes :=
-  let sat_bits := saturate_fragment (blen buf) off_bits len_bits in
-  match memset0 output (sat_bits / 8) ((len_bits + 7) / 8 - sat_bits / 8) with
+(* nunavutGetBits(output, buf, buf_size_bytes, off_bits, len_bits) *)
+Definition get_bits (output buf : bytes) (buf_size_bytes off_bits len_bits : N) : option bytes :=
+  let sat_bits := saturate_fragment buf_size_bytes off_bits len_bits in
+  match memset0 output (sat_bits / 8) (w64 (len_bits + 7) / 8 - sat_bits / 8) with
   | None => None
   | Some o => copy_bits o 0 sat_bits buf off_bits
   end.
 
-(* little-endian memory image of a 64-bit value / the explicit tmp[] array: identical lists,
-   which is exactly why target_endianness little and any/big agree on a little-endian host *)
+(* ---- integer objects and byte arrays ---- *)
+(* generic little-endian byte image (used by the specifications) *)
 Definition le_bytes (n : nat) (v : N) : bytes :=
   map (fun k => N.land (N.shiftr v (8 * N.of_nat k)) 255) (seq 0 n).
 
+(* value of an unsigned integer object whose little-endian memory image is b *)
 Definition of_le_bytes (b : bytes) : N :=
   fold_right (fun x acc => N.lor x (N.shiftl acc 8)) 0 b.
 
+(* memory image of an n-byte unsigned integer object on a little-endian host (target_endianness little:
+   the address of `value` reinterpreted as a pointer to bytes) *)
+Fixpoint mem_le (n : nat) (v : N) : bytes :=
+  match n with O => [] | S m => v mod 256 :: mem_le m (v / 256) end.
+
+(* the explicit array of nunavutSetUxx (target_endianness any / big) *)
+Definition tmp_any (value : N) : bytes :=
+  [ N.land (N.shiftr value 0) 255;  N.land (N.shiftr value 8) 255;
+    N.land (N.shiftr value 16) 255; N.land (N.shiftr value 24) 255;
+    N.land (N.shiftr value 32) 255; N.land (N.shiftr value 40) 255;
+    N.land (N.shiftr value 48) 255; N.land (N.shiftr value 56) 255 ].
+
+(* tmp[0] | (tmp[1] << 8) | ... of nunavutGetU16/32/64 (target_endianness any / big) *)
+Fixpoint or_shifts (k : N) (tmp : bytes) : N :=
+  match tmp with [] => 0 | b :: t => N.lor (N.shiftl b (8 * k)) (or_shifts (k + 1) t) end.
+
 Inductive err := TooSmall.
 
-(* nunavutSetUxx: value is a uint64_t *)
-Definition set_uxx (buf : bytes) (off_bits value len_bits : N) : option (bytes + err) :=
-  if blen buf * 8 <? off_bits + len_bits then Some (inr TooSmall)
+(* nunavutSetUxx(buf, buf_size_bytes, off_bits, value, len_bits); value : uint64_t *)
+Definition set_uxx (little : bool) (buf : bytes) (buf_size_bytes off_bits value len_bits : N) : option (bytes + err) :=
+  if w64 (buf_size_bytes * 8) <? w64 (off_bits + len_bits) then Some (inr TooSmall)
   else
     let saturated := choose_min len_bits 64 in
-    match copy_bits buf off_bits saturated (le_bytes 8 (value mod 2 ^ 64)) 0 with
+    let tmp := if little then mem_le 8 (w64 value) else tmp_any (w64 value) in
+    match copy_bits buf off_bits saturated tmp 0 with
     | Some b => Some (inl b)
     | None => None
     end.
 
+(* nunavutSetIxx: (uint64_t) value *)
+Definition set_ixx (little : bool) (buf : bytes) (buf_size_bytes off_bits : N) (value : Z) (len_bits : N) : option (bytes + err) :=
+  set_uxx little buf buf_size_bytes off_bits (Z.to_N (value mod Z.of_N two64)) len_bits.
+
 (* nunavutSetBit *)
-Definition set_bit (buf : bytes) (off_bits : N) (value : bool) : option (bytes + err) :=
-  if blen buf * 8 <=? off_bits then Some (inr TooSmall)
+Definition set_bit (buf : bytes) (buf_size_bytes off_bits : N) (value : bool) : option (bytes + err) :=
+  if w64 (buf_size_bytes * 8) <=? off_bits then Some (inr TooSmall)
   else match copy_bits buf off_bits 1 [if value then 1 else 0] 0 with
        | Some b => Some (inl b)
        | None => None
        end.
 
-(* nunavutGetU8/16/32/64: w = 8, 16, 32, 64; the result is read back from a zeroed w/8-byte temporary *)
-Definition get_uxx (w : N) (buf : bytes) (off_bits len_bits : N) : option N :=
-  let bits := saturate_fragment (blen buf) off_bits (choose_min len_bits w) in
+(* nunavutGetU8/16/32/64 (w = 8, 16, 32, 64): copy into a zeroed w/8-byte object, then read it *)
+Definition get_uxx (little : bool) (w : N) (buf : bytes) (buf_size_bytes off_bits len_bits : N) : option N :=
+  let bits := saturate_fragment buf_size_bytes off_bits (choose_min len_bits w) in
   match copy_bits (repeat 0 (N.to_nat (w / 8))) 0 bits buf off_bits with
-  | Some tmp => Some (of_le_bytes tmp)
+  | Some tmp => Some (if little || (w =? 8) then of_le_bytes tmp else or_shifts 0 tmp)
   | None => None
   end.
 
-(* nunavutGetI8/16/32/64 with the C expression spelled out on w-bit unsigned values:
-   val | ~((1 << sat) - 1) truncated to w bits; result = neg ? -(intw)(~val) - 1 : (intw) val *)
-Definition get_ixx (w : N) (buf : bytes) (off_bits len_bits : N) : option Z :=
-  let sat := choose_min len_bits w in
-  match get_uxx w buf off_bits sat with
+(* nunavutGetBit *)
+Definition get_bit (little : bool) (buf : bytes) (buf_size_bytes off_bits : N) : option bool :=
+  match get_uxx little 8 buf buf_size_bytes off_bits 1 with
+  | Some v => Some (v =? 1)
   | None => None
-  | Some val =>
-      let neg := (0 <? sat) && negb (N.land val (N.shiftl 1 (sat - 1)) =? 0) in
-      let val' := if (sat <? w) && neg then N.lor val (N.lxor (2 ^ sat - 1) (2 ^ w - 1)) else val in
-      Some (if neg then (- Z.of_N (N.lxor val' (2 ^ w - 1)) - 1)%Z else Z.of_N val')
   end.
+
+(* C conversions *)
+Definition cast_u (w x : N) : N := x mod 2 ^ w.
+Definition cast_s (w : N) (x : Z) : Z :=
+  let m := (x mod 2 ^ Z.of_N w)%Z in if (m <? 2 ^ (Z.of_N w - 1))%Z then m else (m - 2 ^ Z.of_N w)%Z.
+Definition lnot_u (w x : N) : N := N.lxor (cast_u w x) (N.ones w).
+
+(* nunavutGetI8/16/32/64, the C expressions one by one:
+     const uint8_t sat = (uint8_t) nunavutChooseMin(len_bits, w);
+     uintw_t val = nunavutGetUw(buf, buf_size_bytes, off_bits, sat);
+     const bool neg = (sat > 0U) && ((val & (1ULL << (sat - 1U))) != 0U);
+     val = ((sat < w) && neg) ? (uintw_t)(val | ~((1U << sat) - 1U)) : val;     [1U: w<=16, 1UL: w=32, 1ULL: w=64]
+     return neg ? (intw_t)((-(intw_t)(uintw_t) ~val) - 1) : (intw_t) val;
+   pw = width at which `~((1 << sat) - 1)` is evaluated, iw = width of the int arithmetic of `-x - 1`;
+   signed overflow in `-x` is undefined behaviour (None). *)
+Definition sext_expr (w sat val : N) : option Z :=
+  let pw := if w <=? 16 then 32 else 64 in
+  let iw := if w <=? 32 then 32 else 64 in
+  let neg := (0 <? sat) && negb (N.land val (cast_u 64 (N.shiftl 1 (sat - 1))) =? 0) in
+  let val' := if (sat <? w) && neg
+              then cast_u w (N.lor val (lnot_u pw (cast_u pw (N.shiftl 1 sat) - 1)))
+              else val in
+  if neg then
+    let x := cast_s w (Z.of_N (lnot_u w val')) in
+    if (x =? - 2 ^ (Z.of_N iw - 1))%Z then None
+    else Some (cast_s w (- x - 1))
+  else Some (cast_s w (Z.of_N val')).
+
+Definition get_ixx (little : bool) (w : N) (buf : bytes) (buf_size_bytes off_bits len_bits : N) : option Z :=
+  let sat := cast_u 8 (choose_min len_bits w) in
+  match get_uxx little w buf buf_size_bytes off_bits sat with
+  | None => None
+  | Some val => sext_expr w sat val
+  end.
+
+(* nunavutSetF32 / SetF64 / GetF32 / GetF64 move the IEEE-754 bit pattern of the object (union pun) *)
+Definition set_f32 (little : bool) buf size off (bits32 : N) := set_uxx little buf size off (cast_u 32 bits32) 32.
+Definition set_f64 (little : bool) buf size off (bits64 : N) := set_uxx little buf size off (cast_u 64 bits64) 64.
+Definition get_f32 (little : bool) buf size off := get_uxx little 32 buf size off 32.
+Definition get_f64 (little : bool) buf size off := get_uxx little 64 buf size off 64.
+
+(* nunavutSetF16 / GetF16: conversion through nunavutFloat16Pack / Unpack (Prims/F16.v), the float argument/result
+   given by its binary32 bit pattern *)
+Definition set_f16 (little : bool) buf size off (bits32 : N) := set_uxx little buf size off (f16_pack (cast_u 32 bits32)) 16.
+Definition get_f16 (little : bool) buf size off :=
+  match get_uxx little 16 buf size off 16 with Some h => Some (f16_unpack h) | None => None end.
